@@ -659,6 +659,7 @@ FIXTURES = {
     'R17.2': {'src': 'C17/load.c', 'run': r17_2, 'expect': 'reloc_ref.buffer_id:array-index'},
     'R17.3': {'src': 'C17/load.c', 'run': r17_3, 'expect': 'relocation-list:delimited'},
 }
+# R17.8's fixture is registered below its definition
 
 
 def r17_6(ctx):
@@ -755,6 +756,93 @@ def r17_6(ctx):
     ctx.count('loader_functions_indexing_sections', n)
 
 
+# ---------------------------------------------------------------- R17.8
+
+def _fields_read(g, fam, name, decl, depth=0):
+    """fields of record variable `name` (declaration `decl`, -1 for a parameter) that
+    function g reads: member reads rooted at the variable, and what family helpers
+    read through the parameter the variable (or its address) is handed to"""
+    out = {}
+    for n in g.all_nodes():
+        if n['k'] != 'member':
+            continue
+        root, path = cu.member_path(g, n)
+        if root is None or root['k'] != 'ref' or root['name'] != name:
+            continue
+        d = -1 if root.get('dk') == 'param' else (cu.decl_of(g, root) or {}).get('i', -2)
+        if d != decl:
+            continue
+        flds = [x for x in path if not x.startswith('[') and x != '*']
+        if not flds:
+            continue
+        par = g.parent(n)
+        if par is not None and par['k'] == 'bin' and par['op'] == '=' and g.kid(par, 0) is n:
+            continue            # a store into the field, not a read
+        out.setdefault(flds[0], n)
+    byname = {h.name: h for h in fam}
+    for c in g.calls():
+        cal = c.get('callee') or ''
+        h = byname.get(cal)
+        if h is g:
+            continue
+        for i, a in enumerate(g.call_args(c)):
+            a = cu.strip_casts(g, a)
+            if a is not None and a['k'] == 'un' and a['op'] == '&':
+                a = cu.strip_casts(g, g.kid(a, 0))
+            if a is None or a['k'] != 'ref' or a['name'] != name:
+                continue
+            d = -1 if a.get('dk') == 'param' else (cu.decl_of(g, a) or {}).get('i', -2)
+            if d != decl:
+                continue
+            if h is not None:
+                if depth < 3 and i < len(h.params):
+                    for fl, n in _fields_read(h, fam, h.params[i]['name'], -1, depth + 1).items():
+                        out.setdefault(fl, n)
+            elif not (i == 0 and cal in ('yr_stream_read', 'memcpy', 'memset')):
+                out.setdefault('*', c)      # handed to a function outside the family: may read any field
+    return out
+
+
+def r17_8(ctx):
+    """every field of every record the loader reads from the file is consulted: a
+    field the writer records and the loader never looks at is redundancy that is not
+    checked (the buffer table's offsets against its sizes), so a damaged sibling field
+    goes unnoticed"""
+    fam = loader_family(ctx)
+    fills = _fill_summary(fam)
+    n = 0
+    for g in fam:
+        an = _LoaderTaint(ctx, g, fam, fills, {'rec': {}, 'sc': {}})
+        an.find_sources()
+        types = {l['name']: l for l in g.locals}
+        nth = {}
+        for (name, decl) in sorted(an.rec, key=lambda x: ((g.node(x[1]) or {}).get('l', 0) if x[1] >= 0 else 0, x[1])):
+            if decl < 0:
+                continue        # a parameter: the record lives in the caller
+            l = types.get(name)
+            rec = None
+            if l is not None:
+                rec = l.get('prec') or l['type'].split('[')[0].strip()
+            r = ctx.prog.records.get(rec or '')
+            if r is None or r.get('union'):
+                continue
+            got = _fields_read(g, fam, name, decl)
+            nth[rec] = nth.get(rec, 0) + 1
+            tag = rec if nth[rec] == 1 else '%s#%d' % (rec, nth[rec])
+            for fld in r['fields']:
+                n += 1
+                ok = fld['name'] in got or '*' in got
+                ctx.ob('R17.8', '%s:%s.%s:consulted' % (g.name, tag, fld['name']), ok,
+                       '%s:%s' % (g.file, g.line) if not ok else g.loc(got.get(fld['name'], got.get('*'))),
+                       '%s.%s, read from the file, is consulted by the loader' % (name, fld['name']) if ok else
+                       'the loader fills %s (%s) from the file and never looks at .%s: what the writer '
+                       'recorded there is not checked against the rest of the file, so a damaged '
+                       'sibling field is not detected' % (name, rec, fld['name']))
+    return n
+
+
+FIXTURES['R17.8'] = {'src': 'C17/load.c', 'run': r17_8, 'expect': 'YR_HDR.version:consulted'}
+
 LOAD_API = ('yr_rules_load_stream', 'yr_rules_load', 'yr_arena_load_stream', 'yr_rules_from_arena')
 
 
@@ -798,3 +886,5 @@ def run(ctx):
     ctx.floor('R17.6', 1)
     r17_7(ctx)
     ctx.floor('R17.7', 4)
+    r17_8(ctx)
+    ctx.floor('R17.8', 7)
